@@ -25,18 +25,19 @@ type solverDef struct {
 	name string
 	args func(file string, to time.Duration) []string
 	cvc5 bool
+	pruned bool // run on the query without quantified hypotheses unrelated to the goal
 }
 
 var solvers = []solverDef{
 	{"z3-new", func(f string, to time.Duration) []string {
 		return []string{"z3-new", fmt.Sprintf("-T:%d", int(to.Seconds())+1), f}
-	}, false},
+	}, false, false},
 	{"z3", func(f string, to time.Duration) []string {
 		return []string{"z3", fmt.Sprintf("-T:%d", int(to.Seconds())+1), f}
-	}, false},
+	}, false, false},
 	{"cvc5", func(f string, to time.Duration) []string {
 		return []string{"cvc5", fmt.Sprintf("--tlimit=%d", to.Milliseconds()), f}
-	}, true},
+	}, true, false},
 }
 
 // Discharge runs the solvers on all obligations.
@@ -99,19 +100,25 @@ func runSolverCtx(ctx context.Context, sd solverDef, query string, file string, 
 var portfolio = []solverDef{
 	{"z3-new", func(f string, to time.Duration) []string {
 		return []string{"z3-new", fmt.Sprintf("-T:%d", int(to.Seconds())+1), f}
-	}, false},
+	}, false, false},
 	{"z3", func(f string, to time.Duration) []string {
 		return []string{"z3", fmt.Sprintf("-T:%d", int(to.Seconds())+1), f}
-	}, false},
+	}, false, false},
 	{"z3-new/seed3", func(f string, to time.Duration) []string {
 		return []string{"z3-new", fmt.Sprintf("-T:%d", int(to.Seconds())+1), "smt.random_seed=3", f}
-	}, false},
+	}, false, false},
 	{"z3-new/seed5", func(f string, to time.Duration) []string {
 		return []string{"z3-new", fmt.Sprintf("-T:%d", int(to.Seconds())+1), "smt.random_seed=5", f}
-	}, false},
+	}, false, false},
 	{"cvc5", func(f string, to time.Duration) []string {
 		return []string{"cvc5", fmt.Sprintf("--tlimit=%d", to.Milliseconds()), f}
-	}, true},
+	}, true, false},
+	{"z3-new/pruned", func(f string, to time.Duration) []string {
+		return []string{"z3-new", fmt.Sprintf("-T:%d", int(to.Seconds())+1), f}
+	}, false, true},
+	{"z3/pruned", func(f string, to time.Duration) []string {
+		return []string{"z3", fmt.Sprintf("-T:%d", int(to.Seconds())+1), f}
+	}, false, true},
 }
 
 func dischargeOne(o *Obligation, opt SolveOpts, wid int) {
@@ -134,7 +141,12 @@ func dischargeOne(o *Obligation, opt SolveOpts, wid int) {
 		to = 2 * time.Second // vacuity guards: anything but a quick unsat passes
 	}
 	try := func(ctx context.Context, sd solverDef, model bool, to time.Duration) res {
-		q := o.Query(sd.cvc5, model)
+		q := ""
+		if sd.pruned && !model {
+			q = o.QueryPruned(sd.cvc5)
+		} else {
+			q = o.Query(sd.cvc5, model)
+		}
 		r, out, secs := runSolverCtx(ctx, sd, q, base+"-"+strings.ReplaceAll(sd.name, "/", "_")+".smt2", to)
 		return res{sd, r, out, secs}
 	}
